@@ -4,7 +4,7 @@
    kernels of tools/props/C12.py (one per function and per value of `inverse`). *)
 From Coq Require Import ZArith Reals Lra List Bool.
 From PW Require Import Num NumR Vec Mat Result.
-From PW.model Require Import M_viewing.
+From PW.model Require Import M_viewing M_viewing_spec.
 From PW.proofs Require Import P_viewing.
 Import ListNotations.
 Local Open Scope R_scope.
@@ -100,16 +100,22 @@ Theorem C12_canvas_defined : forall w h position target zoom inv, 0 < w -> 0 < h
   world_to_canvas ROps w h position target zoom inv = Ok (Some (canvas_mat ROps w h position target zoom inv)).
 Proof. intros w h p t zoom inv Hw Hh Hz [H1 H2]. exact (canvas_defined w h p t zoom inv Hw Hh Hz H1 H2). Qed.
 
-(* the matrix is the product of the three stage matrices, camera first, with width/zoom and height/zoom,
-   default near 0.1 / far 2000 and the viewport (0,0)-(width,height); reversed order of inverses for inverse=True *)
-Theorem C12_canvas_is_three_stages : forall w h position target zoom,
-  canvas_mat ROps w h position target zoom false =
-    mmul ROps (mmul ROps (viewport_mat ROps w h 0 0 false) (ortho_mat ROps (w / zoom) (h / zoom) (1 / 10) 2000 false))
-              (w2v_mat ROps position target (V3 0 1 0) false) /\
-  canvas_mat ROps w h position target zoom true =
-    mmul ROps (mmul ROps (w2v_mat ROps position target (V3 0 1 0) true) (ortho_mat ROps (w / zoom) (h / zoom) (1 / 10) 2000 true))
-              (viewport_mat ROps w h 0 0 true).
-Proof. exact canvas_is_three_stages. Qed.
+(* canvas = the three stages composed in order, through the FUNCTION-level definitions (with their error and NaN
+   outcomes): whenever the canvas function returns a matrix, so do world_to_view(position, target) [default up = +y],
+   view_to_orthographic_projection(width/zoom, height/zoom) [default near 0.1, far 2000] and
+   viewport_transform(x_right=width, y_bottom=height) [defaults 0, 0], and the canvas matrix is their product with the view
+   stage applied first (for inverse=True: the stage inverses in reverse order).
+   That the CODE composes the results of its own three public functions this way is re-proved on every run on the traced
+   code: lemmas T_canvas_compose / T_canvas_inv_compose (composite = product of the traced stage matrices, all from one
+   run) and T_canvas_stages / T_canvas_inv_stages (traced stages = modelled stages) in tools/props/C12.py. *)
+Theorem C12_canvas_is_product_of_stage_functions : forall w h position target zoom inv m,
+  world_to_canvas ROps w h position target zoom inv = Ok (Some m) ->
+  exists a b c,
+    world_to_view ROps position target (V3 0 1 0) inv = Some a /\
+    view_to_orthographic_projection ROps (w / zoom) (h / zoom) (1 / 10) 2000 inv = Ok b /\
+    viewport_transform ROps w h 0 0 inv = Ok c /\
+    m = if inv then mmul ROps (mmul ROps a b) c else mmul ROps (mmul ROps c b) a.
+Proof. exact canvas_is_product_of_function_results. Qed.
 
 (* on points: camera, then projection, then viewport *)
 Theorem C12_canvas_applies_stages_in_order : forall w h position target zoom x,
@@ -125,6 +131,25 @@ Theorem C12_canvas_inverse_is_inverse : forall w h position target zoom, 0 < w -
   mmul ROps (canvas_mat ROps w h position target zoom false) (canvas_mat ROps w h position target zoom true) = I4 ROps.
 Proof. intros w h p t zoom Hw Hh Hz [H1 H2]. exact (canvas_inverse w h p t zoom Hw Hh Hz H1 H2). Qed.
 
+(* ================================================================================================================ *)
+(* definitional: pins the shape of the model; the content is carried by the traced ties / correspondence             *)
+(*   canvas_mat is DEFINED as this product (closed by reflexivity; it would hold whatever the code does).  The clause   *)
+(*   "the canvas projection equals the three stages composed in order" is carried, for the code, by the traced lemmas  *)
+(*   T_canvas_compose, T_canvas_inv_compose, T_canvas_stages, T_canvas_inv_stages (re-proved every run) and, at function *)
+(*   level, by C12_canvas_is_product_of_stage_functions above.                                                          *)
+(* ================================================================================================================ *)
+(* the matrix of the model is the product of the three stage matrices, camera first, with width/zoom and height/zoom,
+   default near 0.1 / far 2000 and the viewport (0,0)-(width,height); reversed order of inverses for inverse=True *)
+Theorem C12_canvas_is_three_stages : forall w h position target zoom,
+  canvas_mat ROps w h position target zoom false =
+    mmul ROps (mmul ROps (viewport_mat ROps w h 0 0 false) (ortho_mat ROps (w / zoom) (h / zoom) (1 / 10) 2000 false))
+              (w2v_mat ROps position target (V3 0 1 0) false) /\
+  canvas_mat ROps w h position target zoom true =
+    mmul ROps (mmul ROps (w2v_mat ROps position target (V3 0 1 0) true) (ortho_mat ROps (w / zoom) (h / zoom) (1 / 10) 2000 true))
+              (viewport_mat ROps w h 0 0 true).
+Proof. exact canvas_is_three_stages. Qed.
+
+
 (* non-vacuity: a camera that is neither axis aligned nor looking along up *)
 Example C12_camera_ok_inhabited : camera_ok (V3 1 2 3) (V3 (-1) 0 4) (V3 0 1 0).
 Proof.
@@ -138,5 +163,5 @@ Definition C12_all := (C12_w2v_defined, C12_w2v_isometry, C12_w2v_position_to_or
   C12_ortho_defined, C12_ortho_maps_box_to_cube, C12_ortho_corners_near_to_minus_one, C12_ortho_inverse_is_inverse,
   C12_viewport_defined, C12_viewport_maps_corners, C12_viewport_interpolates, C12_viewport_z_to_unit,
   C12_viewport_inverse_is_inverse,
-  C12_canvas_defined, C12_canvas_is_three_stages, C12_canvas_applies_stages_in_order, C12_canvas_inverse_is_inverse).
+  C12_canvas_defined, C12_canvas_is_product_of_stage_functions, C12_canvas_is_three_stages, C12_canvas_applies_stages_in_order, C12_canvas_inverse_is_inverse).
 Print Assumptions C12_all.
